@@ -10,7 +10,7 @@
 (*    every memo entry).                                                   *)
 (* Record kinds: reset | op | opaque | persist | query | panic.            *)
 (***************************************************************************)
-EXTENDS AdfRobddOps, AdfSem, BigBdd, Json, IOUtils
+EXTENDS AdfRobddOps, AdfCompose, BigBdd, Json, IOUtils
 
 Rec == ndJsonDeserialize(IOEnv.TRACE)
 
@@ -165,6 +165,37 @@ CheckHist(r) ==
        \* ... and after the same calls its node table is still the original's (nothing persisted is lost, nothing is renumbered)
        /\ Report(r.copy_final = r.orig_final, r.id, "C14", <<"copy-node-table-diverges", p.how>>)
 
+\* ---------------------------------------------------------------- deep frameworks (40-100 statements), record kind "histdeep"
+\* C14 on them needs no definition at all: the copy must be the original and answer like it.  C11: where the framework decomposes
+\* into constant statements and observers of them (AdfCompose) the answers are judged against the definition as well.
+CheckHistDeep(r) ==
+  LET p == r.persist  n == r.n
+      baseS == { s \in 1..n : Atoms(r.asts[s]) = {} }
+      obsS  == (1..n) \ baseS
+      blocks == [k \in 1..Cardinality(baseS) |-> << CHOOSE s \in baseS : Cardinality({ t \in baseS : t < s }) = k - 1 >>]
+      obs    == [k \in 1..Cardinality(obsS)  |-> CHOOSE s \in obsS  : Cardinality({ t \in obsS : t < s }) = k - 1]
+      decomposes == Cardinality(baseS) >= 1 /\ ValidDecomp(r.asts, n, blocks, obs)
+  IN
+  /\ (p.how # "none") =>
+       /\ Report(p.st = "ok", r.id, "C14", <<"round-trip-fails", p.how>>)
+       /\ (p.st = "ok") => /\ Report(p.copy_nodes = p.orig_nodes, r.id, "C14", <<"node-numbering", p.how>>)
+                           /\ Report(p.copy_ac = p.orig_ac, r.id, "C14", <<"roots", p.how>>)
+                           /\ Report(r.copy_final = r.orig_final, r.id, "C14", <<"copy-node-table-diverges", p.how>>)
+       /\ \A i \in DOMAIN r.calls : LET c == r.calls[i] IN
+            (c.cp_st # "na") => Report(c.cp_st = c.a_st /\ c.cp = c.a, r.id, "C14", <<"copy-answer", i, c.c, c.h>>)
+  /\ \A i \in DOMAIN r.calls : Report(r.calls[i].a_st = "ok", r.id, "C11", <<"status", i, r.calls[i].c>>)
+  /\ decomposes =>
+       LET bs == BlockSem(r.asts, blocks)
+           G  == GroundedC(r.asts, n, blocks, obs, bs) IN
+       \A i \in DOMAIN r.calls : LET c == r.calls[i]  tvs == TVs(c.a) IN
+         (c.a_st = "ok") =>
+           Report(CASE c.c = "grounded" -> tvs = <<G>>
+                    [] c.c = "complete" -> ExactlyOnceC(tvs, n, r.asts, blocks, obs, bs, "co") /\ Len(tvs) >= 1 /\ tvs[1] = G
+                    [] c.c = "twoval"   -> ExactlyOnceC(tvs, n, r.asts, blocks, obs, bs, "tw")
+                    [] OTHER            -> ExactlyOnceC(tvs, n, r.asts, blocks, obs, bs, "st"),
+                  r.id, "C11", <<"answer-after-history", i, c.c, c.h>>)
+  /\ PrintT(<<"HISTDEEP", l, r.id, n, decomposes, p.how>>)
+
 \* ---------------------------------------------------------------- model-level conformance of call histories (drift only)
 \* the store-level transcriptions of grounded / complete / stable (AdfRobddOps) and the extra formulas follow the recorded
 \* history from the real pre-state and must predict every raw answer (handles and order) and the final node table
@@ -310,6 +341,9 @@ Next ==
             LET D == Dtab(r.nodes, r.nv) IN
             /\ Report(r.nodes = r.orig_nodes, r.id, "C14", r.how) \in BOOLEAN
             /\ AuditTables(r, D) \in BOOLEAN
+            \* the state a round trip hands back (tables rebuilt by the repair step included) must be a sound store: whatever is wrong
+            \* in it - a dependency list that lost a variable, a unique table that lost a node - makes later answers differ
+            /\ Report(AuditOK(r, D), r.id, "C14", <<"imported-state", r.how>>) \in BOOLEAN
             /\ Resync(r, D) /\ prev' = r.nodes
        [] r.kind = "hist" ->
             /\ CheckHist(r) \in BOOLEAN
@@ -320,6 +354,9 @@ Next ==
                     /\ S' = m.S /\ synced' = (m.ok /\ m.at # 0)
                ELSE S' = S /\ synced' = FALSE
             /\ UNCHANGED prev
+       [] r.kind = "histdeep" ->
+            /\ CheckHistDeep(r) \in BOOLEAN
+            /\ UNCHANGED <<S, prev, synced>>
        [] r.kind = "query" ->
             /\ CheckQuery(r) \in BOOLEAN
             /\ UNCHANGED <<S, prev, synced>>
@@ -330,7 +367,7 @@ Next ==
             /\ CheckAdfQuery(r) \in BOOLEAN
             /\ UNCHANGED <<S, prev, synced>>
        [] r.kind = "panic" ->
-            /\ Report(FALSE, r.id, "C06", "panic") \in BOOLEAN
+            /\ Report(FALSE, r.id, IF "prop" \in DOMAIN r THEN r.prop ELSE "C06", "panic") \in BOOLEAN
             /\ UNCHANGED <<S, prev, synced>>
        [] OTHER -> UNCHANGED <<S, prev, synced>>          \* statistics records of the harness
 
